@@ -67,7 +67,7 @@ def replay(path, out):
     obj = json.load(open(path))["replay"]
     wd = core.workdir("C04_replay")
     case = obj["case"]
-    cases, results = e2e.run_scripts(wd, [case["acts"]], case.get("cfg", {}), tag="replay", final=())
+    cases, results = e2e.run_scripts(wd, [case["acts"]], case.get("cfg", {}), tag="replay", final=(), vary=False)
     ev = e2e.proj_link(results[0]["log"])
     res = e2e.validate("Trace_LinkProtocol", ev, os.path.join(wd, "tv"), CONSTS)
     print(json.dumps(res))
